@@ -1,6 +1,7 @@
 package main
 
 import (
+	"strings"
 	"go/ast"
 	"go/token"
 	"go/types"
@@ -242,6 +243,21 @@ func (d *dbm) noteTerm(e ast.Expr) {
 		if fn == "len" || fn == "cap" {
 			d.addLE(zeroNode, 0, t, 0)
 			d.noteLen(c.Args[0])
+		}
+		// math/bits counting functions: 0 <= r <= N; LeadingZerosN of a value widened from w bits: r >= N - w
+		if n, isBits := bitsCount[calleeName(d.info, c)]; isBits {
+			d.addLE(zeroNode, 0, t, 0)
+			d.addLE(t, 0, zeroNode, n)
+			if strings.HasPrefix(calleeName(d.info, c), "bits.LeadingZeros") {
+				arg := ast.Unparen(c.Args[0])
+				if cv, isConv := arg.(*ast.CallExpr); isConv && len(cv.Args) == 1 {
+					if tv, isT := d.info.Types[cv.Fun]; isT && tv.IsType() {
+						if w, uns, isInt := intInfo(d.info.TypeOf(cv.Args[0])); isInt && uns && w < n {
+							d.addLE(zeroNode, n-w, t, 0)
+						}
+					}
+				}
+			}
 		}
 	}
 	if id, isId := base.(*ast.Ident); isId {
@@ -815,4 +831,12 @@ func (d *dbm) constTableRange(x ast.Expr) (lo, hi int, ok bool) {
 		return lo, hi, true
 	}
 	return 0, 0, false
+}
+
+// bitsCount: math/bits functions whose result is a bit count in 0..N.
+var bitsCount = map[string]int{
+	"bits.LeadingZeros8": 8, "bits.LeadingZeros16": 16, "bits.LeadingZeros32": 32, "bits.LeadingZeros64": 64,
+	"bits.TrailingZeros8": 8, "bits.TrailingZeros16": 16, "bits.TrailingZeros32": 32, "bits.TrailingZeros64": 64,
+	"bits.Len8": 8, "bits.Len16": 16, "bits.Len32": 32, "bits.Len64": 64,
+	"bits.OnesCount8": 8, "bits.OnesCount16": 16, "bits.OnesCount32": 32, "bits.OnesCount64": 64,
 }
